@@ -40,9 +40,9 @@ def mat(v):
 
     if isinstance(v, dict):
         if "ba" in v:
-            return bitarray(v["ba"])
+            return bitarray(v["ba"], endian="little") if v.get("le") else bitarray(v["ba"])
         if "b" in v:
-            return bytes.fromhex(v["b"])
+            return memoryview(bytes.fromhex(v["b"])) if v.get("mv") else bytes.fromhex(v["b"])
         if "bya" in v:
             return bytearray.fromhex(v["bya"])
         if "e" in v:
@@ -97,12 +97,14 @@ def canon(x, depth=0):
     return "<" + type(x).__name__ + ">"
 
 
-def outcome_of(fn, args):
+def outcome_of(fn, args, keep=None):
     """canonical outcome of one call: value / serialisation / repr, or the exception type"""
     try:
         r = fn(*args)
     except Exception as e:
         return ["raised", type(e).__name__]
+    if keep is not None:
+        keep.append(r)
     out = ["ok", canon(r)]
     # objects: what a user would observe through the public serialisers as well
     items = r if isinstance(r, (list, tuple)) else [r]
@@ -541,7 +543,10 @@ class ArgGen:
         r = self.r
         kind, _, rest = spec.partition(":")
         if kind == "bits":
-            return {"ba": self.bits(self.length(rest))}
+            d = {"ba": self.bits(self.length(rest))}
+            if r.random() < 0.1:
+                d["le"] = 1  # same bit sequence in a little-endian container (the oracle is differential, so any container is fair)
+            return d
         if kind in ("bytes", "bytesm", "bytearray"):
             z = rest.endswith("z")
             n = self.length(rest.rstrip("z"))
@@ -550,6 +555,8 @@ class ArgGen:
                 h = r.choice(["000000", "969696", "999999"])
             if kind == "bytearray" or (kind == "bytesm" and r.random() < 0.3):
                 return {"bya": h}
+            if kind == "bytesm" and r.random() < 0.1:
+                return {"b": h, "mv": 1}
             return {"b": h}
         if kind == "int":
             lo, hi = rest.split(":")
@@ -938,6 +945,7 @@ class C19(Check):
         # phase 2: the history, in this one process, under the HISTORY clock/entropy
         seams = Seams(2_240_000_000.0, 0xB0B)  # 2040-12
         prev_entries = []
+        held = []
         for i, op in enumerate(case["ops"]):
             name = op["entry"]
             if name not in ENTRIES:
@@ -952,7 +960,10 @@ class C19(Check):
             args = [mat(x) for x in op["args"]]
             before = snapshot(args)
             r0 = seams.reads
-            got = outcome_of(ent["fn"], args)
+            kept = []
+            got = outcome_of(ent["fn"], args, kept)
+            if kept and len(held) < 40 and got[0] == "ok":
+                held.append((i, name, kept[0], core.dumps(canon(kept[0]))))  # the caller keeps what it got; it is looked at again after the history
             if seams.reads != r0:
                 res.probe("clock_or_entropy_read_during_codec_call")
             res["evals"] += 1
@@ -975,6 +986,17 @@ class C19(Check):
             prev_entries.append(name)
             if len(res["viol"]) >= 3:
                 break
+        # results held by the caller must still be what they were when they were returned (no later library call may reach into them)
+        for i, name, obj, was in held:
+            try:
+                now = core.dumps(canon(obj))
+            except Exception as e:
+                now = "canon raised " + type(e).__name__
+            if now != was and not res["viol"]:
+                res.violate("C19.earlier-result-changed-later", name, f"the value returned by call #{i} {name} was {was[:160]} when returned and is {now[:160]} after the rest of the "
+                            f"history: a later library call modified an object the caller was given earlier", at=len(case["ops"]) - 1)
+                break
+        res.probe("results_held_to_the_end", len(held))
         res["ops"] = len(case["ops"])
         res["digest"] = log.digest()
         return res
